@@ -404,3 +404,62 @@ func runRR(p RRParams, ops hx.Counter) []Case {
 	}
 	return []Case{cs}
 }
+
+// ------------------------------------------------------------------ key-prefix collisions: rr/<moniker> holder index without separator
+
+type RRPrefixParams struct {
+	Seed     uint64   `json:"chain_seed"`
+	Snap     int64    `json:"genesis_snap_period"`
+	Monikers []string `json:"monikers_of_validators_0_and_1"` // e.g. node1 / node10: rr/node1 is a prefix of rr/node10
+	Short    string   `json:"amount_of_the_first_token_sent_to_a4"`
+	Long     string   `json:"amount_of_the_second_token_sent_to_a4"`
+	Register int      `json:"register_messages_by_a4"`
+	NBlocks  int      `json:"blocks"`
+}
+
+// Two validators issue recovery tokens; account a4 holds both and registers as holder (one message registers one
+// token). The holder index key is prefix ++ denom ++ address, iterated by prefix ++ denom.
+func runRRPrefix(p RRPrefixParams, ops hx.Counter) []Case {
+	h := NewH(abci.Config{Accounts: 6, Validators: 2, Seed: p.Seed,
+		Genesis: func(gs simapp.GenesisState, _ func(interface{}) []byte) {
+			dg := distributortypes.DefaultGenesis()
+			dg.SnapPeriod = p.Snap
+			gs[distributortypes.ModuleName] = simapp.MakeEncodingConfig().Marshaler.MustMarshalJSON(dg)
+		}}, ops)
+	c := h.C
+	log := []string{fmt.Sprintf("chain accounts=6 validators=2 seed=%d genesis distributor snap_period=%d", p.Seed, p.Snap)}
+	a4 := c.Accounts[4].Addr
+	h.Block(BlockReq{Dt: 5}, func() {
+		for v := 0; v < 2; v++ {
+			owner := c.Accounts[c.Validators[v].Owner].Addr
+			h.Tx("register-identity-records", c.Validators[v].Owner, govtypes.NewMsgRegisterIdentityRecords(owner, []govtypes.IdentityInfoEntry{{Key: "moniker", Info: p.Monikers[v]}}))
+			res := h.Tx("issue-recovery-tokens", c.Validators[v].Owner, recoverytypes.NewMsgIssueRecoveryTokens(owner.String()))
+			log = append(log, fmt.Sprintf("owner of validator %d registers moniker %s and issues 10^13 rr/%s code=%d", v, p.Monikers[v], p.Monikers[v], res.Code))
+		}
+	}, nil)
+	h.Block(BlockReq{Dt: 5, Proposer: 1}, func() {
+		for v, amt := range []string{p.Short, p.Long} {
+			n, _ := sdk.NewIntFromString(amt)
+			if !n.IsPositive() {
+				continue
+			}
+			owner := c.Accounts[c.Validators[v].Owner].Addr
+			res := h.Tx("bank-send", c.Validators[v].Owner, banktypes.NewMsgSend(owner, a4, sdk.NewCoins(sdk.NewCoin("rr/"+p.Monikers[v], n))))
+			log = append(log, fmt.Sprintf("it sends %srr/%s to a4 code=%d", amt, p.Monikers[v], res.Code))
+		}
+		for i := 0; i < p.Register; i++ {
+			res := h.Tx("register-rr-holder", 4, recoverytypes.NewMsgRegisterRRTokenHolder(a4))
+			log = append(log, fmt.Sprintf("a4 sends MsgRegisterRRTokenHolder code=%d", res.Code))
+		}
+	}, nil)
+	for b := 0; b < p.NBlocks && !h.Halted; b++ {
+		h.Block(BlockReq{Dt: 5, Proposer: b % 2}, func() {
+			h.TxFee("bank-send", 5, ukex(int64(101+2*b)), banktypes.NewMsgSend(c.Accounts[5].Addr, c.Accounts[3].Addr, ukex(1)))
+			if b == p.NBlocks/2 {
+				h.Tx("claim-rr-rewards", 4, recoverytypes.NewMsgClaimRRHolderRewards(a4))
+			}
+		}, nil)
+	}
+	log = append(log, fmt.Sprintf("%d blocks dt=5 proposed alternately by validators 0 and 1, each with a bank send paying an odd fee", p.NBlocks))
+	return []Case{histCase("recovery-rewards-prefix", h, log, p)}
+}
